@@ -242,7 +242,13 @@ def tail(R):
         o, on = rd.origin(r, r.ast.value)
         ok = isinstance(o, ast.Subscript) and isinstance(o.slice, ast.Slice) and o.slice.lower is None \
             and o.slice.step is None and o.slice.upper is not None and isinstance(o.value, ast.BinOp) \
-            and isinstance(o.value.op, ast.Add) and o.value.left is comp[0][1] and o.value.right is fl[0][1]
+            and isinstance(o.value.op, ast.Add) and rd.origin(on, o.value.left)[0] is comp[0][1] \
+            and rd.origin(on, o.value.right)[0] is fl[0][1]
+        # compress() is called before flush()
+        if fl[0][0] is comp[0][0]:
+            ok = ok and (comp[0][1].lineno, comp[0][1].col_offset) < (fl[0][1].lineno, fl[0][1].col_offset)
+        else:
+            ok = ok and comp[0][0] in g.reachable([g.entry], avoid={fl[0][0]}) and fl[0][0] in g.succ_reach(comp[0][0])
         k = fold(R, o.slice.upper, g.ctx) if ok else None
         strip = -k if isinstance(k, int) else None
         R.ob('C06.tail', 'result = (compress + flush)[:-4]', ok and strip == 4, 'compress() returns %s' % U(o), func=q, node=o)
@@ -256,14 +262,20 @@ def tail(R):
     f = R.func(q)
     frames = f.params[1]
     dec = ext_calls(R, g, {'zdecomp.decompress'})
-    lit = [(n, c) for (n, c) in dec if c.args and isinstance(c.args[0], ast.Constant)]
+    litval = {}
+    for (n, c) in dec:
+        if c.args:
+            v_ = fold(R, c.args[0], g.ctx)
+            if isinstance(v_, bytes):
+                litval[id(c)] = v_
+    lit = [(n, c) for (n, c) in dec if id(c) in litval]
     per = [(n, c) for (n, c) in dec if (n, c) not in lit]
-    ok = len(lit) == 1 and lit[0][1].args[0].value == b'\x00\x00\xff\xff'
+    ok = len(lit) == 1 and litval[id(lit[0][1])] == b'\x00\x00\xff\xff'
     R.ob('C06.tail', 'trailer literal 00 00 ff ff', ok, 'trailer fed: %s' % [U(c.args[0]) for (_, c) in lit], func=f,
          node=(lit[0][1] if lit else None), construct='inflate trailer literal')
     if lit:
-        R.ob('C06.tail', 'trailer length equals the stripped length', strip == len(lit[0][1].args[0].value),
-             'compress strips %s bytes, decompress appends %d' % (strip, len(lit[0][1].args[0].value)), func=f, node=lit[0][1])
+        R.ob('C06.tail', 'trailer length equals the stripped length', strip == len(litval[id(lit[0][1])]),
+             'compress strips %s bytes, decompress appends %d' % (strip, len(litval[id(lit[0][1])])), func=f, node=lit[0][1])
         # once per message: not inside a comprehension / loop
         parents = R.types.parents(f)
         p = parents.get(id(lit[0][1]))
